@@ -169,4 +169,174 @@ Qed.
 Lemma hdr_kind_not_rst fr : is_hdr_kind (sf_kind fr) = true -> fkind_eqb (sf_kind fr) KRst = false.
 Proof. unfold is_hdr_kind. destruct (sf_kind fr); cbn; congruence. Qed.
 
+Lemma rank_ok_unanswered idp s fr : P idp s -> rank_ok s fr -> st_responded s = false.
+Proof.
+  intros (_ & P2 & _) [RK _]. destruct (st_responded s); [|reflexivity]. destruct (P2 eq_refl) as [Hf Rk].
+  replace (3 <=? sstate_rank (st_state s)) with true in RK by lia. cbn [andb] in RK.
+  apply negb_false_iff in RK. unfold continuing_headers in RK. rewrite Hf in RK. cbn [negb] in RK.
+  rewrite andb_false_r in RK. discriminate.
+Qed.
+
+Lemma rank_ok_closed idp s fr : P idp s -> rank_ok s fr -> st_state s = SClosed ->
+  st_headersFinished s = false /\ close_ok true s.
+Proof.
+  intros (_ & _ & _ & _ & P5) [RK _] E. split; [|auto]. rewrite E in RK. cbn [sstate_rank] in RK.
+  change (3 <=? 4) with true in RK. cbn [andb] in RK. apply negb_false_iff in RK. unfold continuing_headers in RK.
+  apply andb_prop in RK. destruct RK as [_ RK]. apply negb_true_iff in RK. exact RK.
+Qed.
+
+Lemma P_set_hdr_open idp s h : P idp s -> st_responded s = false -> hd_headersFinished h = false -> idp (st_id s) ->
+  (st_state s = SClosed -> st_headersFinished s = false /\ close_ok true s) -> P idp (set_hdr s h).
+Proof.
+  intros (P1 & P2 & P3 & P4 & P5) R Hf I C. unfold P. cbn [set_hdr st_headersFinished st_prev st_responded st_handlerRunning st_id st_state].
+  repeat split; try congruence.
+  - exact P3.
+  - intro E. destruct (C E) as [Hs OK]. intros K _. apply (OK K Hs).
+Qed.
+
+Lemma P_set_hdr_done idp s h : P idp s -> st_responded s = false ->
+  P idp (set_headers_finished (set_hdr s (hd_set_prev h [])) true).
+Proof.
+  intros (P1 & P2 & P3 & P4 & P5) R. unfold P.
+  cbn [set_headers_finished set_hdr get_hdr hd_set_prev st_headersFinished st_prev st_responded st_handlerRunning st_id st_state
+       hd_prev hd_headersFinished].
+  repeat split; try congruence.
+  - exact P3.
+  - intros _ _ Hf. discriminate.
+Qed.
+
+Lemma HInv_upd_dec idp c d : HInv idp c -> HInv idp (upd_dec c d).
+Proof. apply HInv_ext; reflexivity. Qed.
+
+(* ---------- the fragment goes to a stream of the table ---------- *)
+Lemma ftail_hdr c2 s fr wc :
+  is_hdr_kind (sf_kind fr) = true -> st_id s = sf_sid fr ->
+  HInv (eq (sf_sid fr)) c2 -> strms_search (sc_strms c2) (sf_sid fr) = Some s ->
+  sc_wl_dead c2 = false -> (wc = true -> sc_closing c2 = true) ->
+  (gcount (sc_out (fst (ftail dec_field cfg c2 s fr wc))) <= gcount (sc_out c2))%nat ->
+  hdr_post (sc_dec c2) (hn0 s fr) (hb0 s fr) fr (fst (ftail dec_field cfg c2 s fr wc)).
+Proof.
+  intros HK Es H SS W WC G. unfold ftail in *.
+  pose proof (handle_frame_hdr_spec _ dec_field cfg c2 s fr HK) as HS.
+  destruct (handle_frame dec_field cfg c2 s fr) as [[c3 s3] e]. cbn [fst snd] in HS.
+  destruct (strms_search_In _ _ _ SS) as [Is _].
+  pose proof H as [ND FP IDS LAST DISC RING].
+  assert (Ps : P (eq (sf_sid fr)) s) by (rewrite Forall_forall in FP; auto).
+  assert (NZ : sf_sid fr <> 0) by (rewrite <- Es; apply IDS; exact Is).
+  assert (DN : sc_discardID c2 <> sf_sid fr).
+  { intro E. assert (N0 : sc_discardID c2 <> 0) by congruence. destruct (DISC N0) as [NI _]. apply NI.
+    rewrite E, <- Es. apply in_map. exact Is. }
+  assert (NR := hdr_kind_not_rst fr HK).
+  assert (IT : forall d x, st_id x = st_id s -> inT (upd_dec c2 d) x).
+  { intros d x Ex. exists s. sc_cbn. rewrite Ex, Es. exact SS. }
+  inversion HS as [c1' s1' e' D I F|fs hF d' n' carry' RO EH R HF|fs hF d' n' RO EH R HF
+                   |fs k v fs2 hF code d' n' carry' RO R HF FE]; subst.
+  - (* a connection error *)
+    exfalso. pose proof (fatal_ftail_rest c2 c3 s3 e' fr wc D F W). lia.
+  - (* the block goes on *)
+    set (s3 := set_hdr s (hd_set_prev hF carry')) in *. set (c3 := upd_dec c2 d') in *.
+    destruct (hfold_frame cfg _ _ _ HF) as (_ & BF & HFF). cbn [hh1 hd_headersFinished] in HFF. rewrite hh1_bf in BF.
+    pose proof (ref_run_count _ _ _ _ _ _ _ _ _ _ R) as CNT.
+    assert (R0 := rank_ok_unanswered _ _ _ Ps RO).
+    assert (P3 : P (eq (sf_sid fr)) s3).
+    { apply P_set_hdr_open; [exact Ps | exact R0 | exact HFF | symmetry; exact Es | apply (rank_ok_closed _ _ _ Ps RO)]. }
+    assert (HV : HInv (eq (sf_sid fr)) (put c3 s3)).
+    { eapply HInv_put; [apply HInv_upd_dec; exact H | | exact P3]. sc_cbn. cbn [s3 set_hdr st_id]. rewrite Es. exact SS. }
+    assert (CV : carry_at (put c3 s3) (sf_sid fr) = Some (n', carry')).
+    { assert (SP : strms_search (sc_strms (put c3 s3)) (sf_sid fr) = Some s3).
+      { rewrite sc_strms_put. rewrite <- Es. change (st_id s) with (st_id s3). eapply iso_search_put_same.
+        cbn [s3 set_hdr st_id]. rewrite Es. exact SS. }
+      unfold carry_at. rewrite SP. replace (sc_discardID (put c3 s3)) with (sc_discardID c2) by reflexivity.
+      replace (sc_discardID c2 =? sf_sid fr) with false by lia.
+      cbn [s3 set_hdr st_headersFinished hd_set_prev hd_headersFinished st_blockFields hd_blockFields st_prev hd_prev].
+      rewrite HFF. f_equal. f_equal. lia. }
+    assert (M : hmvs true (put c3 s3) (fst (ftail_rest cfg c3 s3 None fr wc))).
+    { apply (hmvs_ftail_rest _ dec_field enc_set_max).
+      - apply IT. reflexivity.
+      - exact WC.
+      - intros _ CL. apply (handle_state_not_rst _ _ NR) in CL. cbn [s3 set_hdr st_state] in CL.
+        destruct (rank_ok_closed _ _ _ Ps RO CL) as [Hs OK]. intros K _. apply (OK K Hs).
+      - intros code Ec. discriminate Ec. }
+    exists fs, n', carry'. split.
+    + rewrite (hmvs_dec _ _ _ _ M). rewrite EH. exact R.
+    + intro Hd'. unfold next_cur. rewrite EH. split.
+      * eapply hmvs_HInv; [exact M | exact HV | exact Hd'].
+      * intros _. eapply hmvs_carry; [exact M | exact HV | exact Hd' | exact CV].
+  - (* the block is complete *)
+    set (s3 := set_headers_finished (set_hdr s (hd_set_prev hF [])) true) in *. set (c3 := upd_dec c2 d') in *.
+    assert (R0 := rank_ok_unanswered _ _ _ Ps RO).
+    assert (P3 : P (eq (sf_sid fr)) s3) by (apply P_set_hdr_done; assumption).
+    assert (S3 : strms_search (sc_strms c3) (st_id s3) = Some s) by (cbn [s3 set_headers_finished set_hdr st_id]; rewrite Es; exact SS).
+    assert (HV : HInv (eq 0) (put c3 s3)).
+    { eapply (HInv_none (sf_sid fr) (eq 0) _ s3).
+      - eapply HInv_put; [apply HInv_upd_dec; exact H | exact S3 | exact P3].
+      - rewrite sc_strms_put. replace (sf_sid fr) with (st_id s3) by exact Es. eapply iso_search_put_same. exact S3.
+      - reflexivity. }
+    assert (M : hmvs true (put c3 s3) (fst (ftail_rest cfg c3 s3 (validate_request_pseudo_headers s3) fr wc))).
+    { apply (hmvs_ftail_rest _ dec_field enc_set_max).
+      - apply IT. reflexivity.
+      - exact WC.
+      - intros _ _ _ Hf. discriminate Hf.
+      - intros code Ec. apply validate_err in Ec. discriminate Ec. }
+    exists fs, n', []. split.
+    + rewrite (hmvs_dec _ _ _ _ M). rewrite EH. exact R.
+    + intro Hd'. unfold next_cur. rewrite EH. split; [|congruence].
+      eapply hmvs_HInv; [exact M | exact HV | exact Hd'].
+  - (* a stream error at a field: the stream is reset and closed, the rest of the block has been decoded *)
+    set (s3 := set_hdr s hF) in *.
+    set (c3 := upd_discard (upd_dec c2 d') (if eh_of fr then 0 else st_id s) carry' n') in *.
+    destruct (hfold_frame cfg _ _ _ HF) as (PV & _ & HFF). cbn [hh1 hd_headersFinished hd_prev] in HFF, PV.
+    assert (R0 := rank_ok_unanswered _ _ _ Ps RO).
+    unfold ftail_rest. cbn [write_error].
+    set (s5 := set_state (set_state (set_weReset s3) SClosed) SClosed).
+    set (c4 := write_reset c3 (st_id s3) code).
+    rewrite (after_frame_closed c4 s5 fr wc NR eq_refl) by exact R0. cbv zeta.
+    set (cc := close_stream (put c4 s5) s5).
+    exists (fs ++ (k, v) :: fs2), n', carry'.
+    assert (DC : sc_dec cc = d') by (unfold cc, c4, c3; sc_rw; reflexivity).
+    assert (HC : HG cc (next_cur fr) n' carry').
+    { assert (S5 : strms_search (sc_strms c4) (st_id s5) = Some s) by (unfold c4, c3; sc_rw; sc_cbn; cbn [s5 s3 set_state set_weReset set_hdr st_id]; rewrite Es; exact SS).
+      assert (ND5 : NoDup (map st_id (sc_strms (put c4 s5)))).
+      { rewrite sc_strms_put, strms_put_ids. unfold c4, c3. sc_rw. sc_cbn. exact ND. }
+      assert (I5 : st_id s5 = sf_sid fr) by exact Es.
+      pose proof (close_stream_discard _ (put c4 s5) s5) as CD.
+      replace (st_weReset s5) with true in CD by reflexivity.
+      replace (st_headersFinished s5) with false in CD by (symmetry; exact HFF).
+      replace (sc_discardID (put c4 s5)) with (if eh_of fr then 0 else st_id s) in CD by (unfold c4, c3; sc_rw; reflexivity).
+      rewrite I5 in CD. cbn [andb negb] in CD.
+      assert (PO : forall y, In y (sc_strms cc) -> P (eq (next_cur fr)) y /\ st_id y <= sc_lastID c2 /\ st_id y <> 0).
+      { intros y Iy. unfold cc in Iy. rewrite sc_strms_close_stream in Iy.
+        assert (Ny : st_id y <> st_id s5).
+        { intro E. apply (iso_del_gone _ (st_id s5) ND5). rewrite <- E. apply in_map. exact Iy. }
+        apply strms_del_In in Iy. rewrite sc_strms_put in Iy. destruct (strms_put_In _ _ _ Iy) as [->|Iy']; [congruence|].
+        unfold c4, c3 in Iy'. rewrite sc_strms_write_reset in Iy'. sc_cbn_in Iy'.
+        rewrite Forall_forall in FP. pose proof (FP y Iy') as Py. split; [|apply IDS; exact Iy'].
+        eapply P_weaken; [exact Py|]. destruct (st_headersFinished y) eqn:Hy; [reflexivity|].
+        destruct Py as (_ & _ & _ & P4 & _). specialize (P4 Hy). congruence. }
+      split.
+      - constructor.
+        + unfold cc. rewrite sc_strms_close_stream. apply iso_del_NoDup. exact ND5.
+        + apply Forall_forall. intros y Iy. apply PO. exact Iy.
+        + intros y Iy. unfold cc, c4, c3. sc_rw. sc_cbn. apply PO. exact Iy.
+        + unfold cc, c4, c3. sc_rw. sc_cbn. exact LAST.
+        + intros _. assert (ED : sc_discardID cc = sf_sid fr).
+          { destruct (eh_of fr); [replace (0 =? sf_sid fr) with false in CD by lia
+                                 |replace (st_id s =? sf_sid fr) with true in CD by lia];
+              cbn [negb] in CD; inversion CD as [[E1 E2 E3]]; [exact I5 | exact Es]. }
+          rewrite ED. split.
+          * unfold cc. rewrite sc_strms_close_stream. rewrite <- I5. apply iso_del_gone. exact ND5.
+          * unfold cc, c4, c3. sc_rw. sc_cbn. rewrite <- Es. destruct (IDS s Is). lia.
+        + intros e' Ie. unfold cc in Ie. rewrite sc_ring_close_stream in Ie.
+          destruct (mark_closed_ring_In _ _ _ _ _ Ie) as [->|Ie'].
+          * cbn [fst]. unfold c4, c3. sc_rw. sc_cbn. rewrite I5, <- Es. destruct (IDS s Is). lia.
+          * unfold c4, c3 in Ie'. rewrite sc_ring_put, sc_ring_write_reset in Ie'. sc_cbn_in Ie'.
+            unfold c4, c3. sc_rw. sc_cbn. apply RING. exact Ie'.
+      - unfold next_cur. destruct (eh_of fr); [congruence|]. intros _.
+        replace (st_id s =? sf_sid fr) with true in CD by lia. cbn [negb] in CD. inversion CD as [[E1 E2 E3]].
+        unfold carry_at. rewrite E1, E2, E3. unfold c4, c3. sc_rw. sc_cbn. rewrite Es, N.eqb_refl. reflexivity. }
+    destruct (wc && can_close_after_goaway cc)%bool.
+    + split; [cbn [brk fst note]; sc_cbn; rewrite DC; exact R | intro Hd'; discriminate Hd'].
+    + split; [cbn [cont fst]; rewrite DC; exact R | intros _; exact HC].
+Qed.
+
 End HdrStep.
